@@ -568,7 +568,17 @@ func (s *Store[H]) flush(ctx context.Context, headers ...H) error {
 	}
 
 	// finally, commit the batch on disk
-	return batch.Commit(ctx)
+	if err := batch.Commit(ctx); err != nil {
+		return err
+	}
+
+	// the batch may have replaced the index entry of a height (a different header appended where one had
+	// been deleted, with the old entry surviving a crash in the middle of that deletion):
+	// a cached mapping to the old hash would hide the new header
+	for _, h := range headers {
+		s.heightIndex.cache.Remove(h.Height())
+	}
+	return nil
 }
 
 // readByKey the hash under the given key from datastore and fetch the header by hash.
